@@ -313,7 +313,9 @@ def run(ctx):
         "accessor equivalence (READ/WRITE macro recompilation, pixman-access-accessors.c) is established by correspondence only: "
         "the same requests through images with read/write callbacks give the model's result, and every callback address lies inside "
         "the image storage",
-        "excluded: rgba_float/rgb_float as formats under test (they are the float observation buffer), "
+        "rgba_float/rgb_float (the float observation buffer of the other requests) are covered by a spec oracle only, not by the model: "
+        "SRC from/into them must copy the floats bit-exactly through the scanline reader, the single-pixel reader (x-mirrored, "
+        "NORMAL-shifted) and the rgb_float writer (harness/format.c gen_float_packed); excluded: "
         "the 32-bit sRGB entry points fetch/store_*_a8r8g8b8_32_sRGB (not reachable through compositing: sRGB is a wide format), "
         "big-endian macro variants, dithering, alpha maps, negative yv12 strides; yuy2/yv12 are fetch-only and their fetchers "
         "bypass the accessor callbacks (generated without accessor modes)",
